@@ -137,6 +137,7 @@ async fn run_seq<W: Write>(mut cfg: MainConfig, ops: &[&str], out: &mut W, seqno
                 match tokio::time::timeout(TMO, TcpStream::connect(("127.0.0.1", port))).await {
                     Ok(Ok(s)) => {
                         s.set_nodelay(true).ok();
+                        s.set_linger(Some(Duration::from_secs(0))).ok(); // no TIME_WAIT pile-up
                         clients.insert(
                             c,
                             Cl {
@@ -158,6 +159,7 @@ async fn run_seq<W: Write>(mut cfg: MainConfig, ops: &[&str], out: &mut W, seqno
                 match tokio::time::timeout(TMO, sock.connect(addr)).await {
                     Ok(Ok(s)) => {
                         s.set_nodelay(true).ok();
+                        s.set_linger(Some(Duration::from_secs(0))).ok(); // no TIME_WAIT pile-up
                         clients.insert(
                             c,
                             Cl {
